@@ -21,10 +21,16 @@ Methods(c) == c.pub + c.stat + c.clsm
 \* code lines: header + every member's code lines + filler (layout constants come with the class)
 Loc(c) == c.headerLines + c.pub * c.lpub + c.stat * c.lstat + c.clsm * c.lclsm + c.priv * c.lpriv
           + c.dunder * c.ldunder + c.prop * c.lprop + c.setter * c.lsetter + c.ctor * c.lctor + c.fill + c.footerLines
+\* the configured keyword list: the built-in one ("default": Manager, Handler, ...), a list of the user's that names the
+\* OTHER suffix the generated classes carry ("own": [Thing]), one that names nothing in the program ("other"), or the
+\* empty list ("empty": the user switched every keyword off - nothing can contain a keyword that is not there)
+KeywordHit(c, cfg) == cfg.checkKeywords /\ (CASE cfg.keywords = "default" -> c.keyword
+                                               [] cfg.keywords = "own" -> ~c.keyword
+                                               [] OTHER -> FALSE)
 Issues(c, cfg) ==
     (IF Methods(c) > cfg.maxMethods THEN <<"methods">> ELSE <<>>)
     \o (IF Loc(c) > cfg.maxLoc THEN <<"lines">> ELSE <<>>)
-    \o (IF cfg.checkKeywords /\ c.keyword THEN <<"keyword">> ELSE <<>>)
+    \o (IF KeywordHit(c, cfg) THEN <<"keyword">> ELSE <<>>)
 Reported(c, cfg) == Issues(c, cfg) # <<>>
 
 \* ---- laws ------------------------------------------------------------------------------------
@@ -35,16 +41,18 @@ Shape == [pub : 0..3, stat : 0..1, clsm : 0..1, priv : 0..2, dunder : 0..1, prop
 Layout == [headerLines |-> 1, footerLines |-> 0, lpub |-> 2, lstat |-> 3, lclsm |-> 3, lpriv |-> 2, ldunder |-> 2,
            lprop |-> 3, lsetter |-> 3, lctor |-> 2]
 WithLayout(s) == [k \in DOMAIN s \cup DOMAIN Layout |-> IF k \in DOMAIN s THEN s[k] ELSE Layout[k]]
-Init == cls \in Shape /\ cfg \in [maxMethods : 1..3, maxLoc : {6, 12, 40}, checkKeywords : BOOLEAN] /\ done = FALSE
+Init == cls \in Shape /\ cfg \in [maxMethods : 1..3, maxLoc : {6, 12, 40}, checkKeywords : BOOLEAN,
+                                  keywords : {"default", "own", "other", "empty"}] /\ done = FALSE
 Next == ~done /\ done' = TRUE /\ UNCHANGED <<cls, cfg>>
 Spec == Init /\ [][Next]_vars
 
 C == WithLayout(cls)
-OnLimitNotReported == (Methods(C) = cfg.maxMethods /\ Loc(C) <= cfg.maxLoc /\ ~(cfg.checkKeywords /\ C.keyword))
+OnLimitNotReported == (Methods(C) = cfg.maxMethods /\ Loc(C) <= cfg.maxLoc /\ ~KeywordHit(C, cfg))
                           => ~Reported(C, cfg)
 AboveLimitReported == (Methods(C) = cfg.maxMethods + 1) => Reported(C, cfg)
 BlankAndCommentIrrelevant == Loc(C) = Loc([C EXCEPT !.blank = 0, !.comment = 0])
 PrivateIrrelevantForMethods == Methods(C) = Methods([C EXCEPT !.priv = 0, !.dunder = 0, !.prop = 0, !.setter = 0, !.ctor = 0])
-EmitShape == (cfg = [maxMethods |-> 1, maxLoc |-> 6, checkKeywords |-> FALSE] /\ ~done) => PrintT(<<"CASE", ToJson(cls)>>)
+EmitShape == (cfg = [maxMethods |-> 1, maxLoc |-> 6, checkKeywords |-> FALSE, keywords |-> "default"] /\ ~done) => PrintT(<<"CASE", ToJson(cls)>>)
 KeywordOnlyWhenSwitchedOn == ("keyword" \in {Issues(C, cfg)[i] : i \in 1..Len(Issues(C, cfg))}) => cfg.checkKeywords
+EmptyListNeverHits == cfg.keywords = "empty" => ~KeywordHit(C, cfg)
 =============================================================================
